@@ -106,5 +106,33 @@ m("bt4-reset-leaves-lookup",["C05"],"batch.go",
 m("cf2-active-file-chosen-by-size-limit",["C02","C14"],"db.go",
   "\t\tif i == len(fileIds)-1 {\n","\t\tif i == len(fileIds)-1 && dataFile.Size() < db.options.DataFileSize {\n",
   "CF2","open-ignores-size-limit","a full newest file is not made active: the next session appends to low-numbered old files (seeded C02-H)")
+
+m("dt1-hset-existence-from-nil-value",["C19"],"datatype/types.go",
+  "\tvar exist = true\n\tif _, err = dts.db.Get(encKey); err == bitcask.ErrKeyNotFound {\n\t\texist = false\n\t}\n\n\t// 涉及更新数据和元数据两步操作, 需保证原子性\n\twb := dts.db.NewBatch(bitcask.DefaultBatchOptions)\n\t// 不存在则更新元数据",
+  "\toldValue, err := dts.db.Get(encKey)\n\tif err != nil && err != bitcask.ErrKeyNotFound {\n\t\treturn false, err\n\t}\n\texist := oldValue != nil\n\n\t// 涉及更新数据和元数据两步操作, 需保证原子性\n\twb := dts.db.NewBatch(bitcask.DefaultBatchOptions)\n\t// 不存在则更新元数据",
+  "DT1","existence-by-error","HSet decides existence from the value: a field holding an empty value counts as new (seeded C19-A)")
+
+m("pool3-reader-releases-callers-buffer",["C12","C09","C15"],"datafile/data_file.go",
+  "\t\tdata, chunkType, err := DecodeChunk(block[offset:size])\n\t\tif err != nil {\n\t\t\treturn err\n\t\t}",
+  "\t\tdata, chunkType, err := DecodeChunk(block[offset:size])\n\t\tif err != nil {\n\t\t\tbytebufferpool.Put(buf)\n\t\t\treturn err\n\t\t}",
+  "POOL3","single-release:(*datafile.DataFile).ReadRecordValue","positional reader releases the buffer its callers also release: after a detected CRC error one buffer is in the pool twice (seeded C12-G)")
+m("ps8-backend-short-read-is-success",["C12","C03"],"fio/file_io.go",
+  "\treturn fio.fd.ReadAt(b, offset)\n",
+  "\tn, err := fio.fd.ReadAt(b, offset)\n\tif err == io.EOF && n > 0 {\n\t\treturn n, nil\n\t}\n\treturn n, err\n",
+  "PS8","backend-read:(*fio.FileIO).Read","short read at end of file reported as success: stale bytes of the pooled block buffer are decoded (seeded C12-H)",
+  edits=[{"file":"fio/file_io.go","find":"import \"os\"","replace":"import (\n\t\"io\"\n\t\"os\"\n)"}])
+m("tb4c-empty-means-absent-before-tag-test",["C19"],"datatype/types.go",
+  "\t\tif meta.dataType != dt {\n\t\t\treturn nil, ErrWrongTypeOperation\n\t\t}\n",
+  "\t\tif meta.size == 0 {\n\t\t\texist = false\n\t\t} else if meta.dataType != dt {\n\t\t\treturn nil, ErrWrongTypeOperation\n\t\t}\n",
+  "TB4","tag-test-first","size tested before the type tag: a one-byte string decodes to size 0 and loses its wrong-type reply (seeded C19-G)")
+m("rm1-adoption-removes-listed-names",["C16","C07"],"merge.go",
+  "\t\tfor fileID := uint32(0); fileID < mergeID; fileID++ {\n\t\t\tdestName := datafile.GetFileName(db.options.DirPath, fileID, datafile.DataFileSuffix)\n",
+  "\t\tentries, err := os.ReadDir(db.options.DirPath)\n\t\tif err != nil {\n\t\t\treturn 0, err\n\t\t}\n\t\tfor _, entry := range entries {\n\t\t\tfileID, _ := strconv.Atoi(strings.SplitN(entry.Name(), \".\", 2)[0])\n\t\t\tif entry.IsDir() || uint32(fileID) >= mergeID {\n\t\t\t\tcontinue\n\t\t\t}\n\t\t\tdestName := filepath.Join(db.options.DirPath, entry.Name())\n",
+  "RM1","removal-targets-constructed","adoption deletes by directory listing: '.lock' parses as id 0 and is unlinked while held (seeded C16-H)",
+  edits=[{"file":"merge.go","find":"\t\"path/filepath\"\n)","replace":"\t\"path/filepath\"\n\t\"strconv\"\n\t\"strings\"\n)"}])
+m("cd9-open-steps-over-short-tail",["C11","C02"],"datafile/data_file.go",
+  "\treturn &DataFile{\n\t\tID:            id,\n\t\tReadWriter:    readWriter,\n\t\tlastBlockID:   uint32(size / blockSize),\n\t\tlastBlockSize: uint32(size % blockSize),\n",
+  "\tlastBlockID, lastBlockSize := uint32(size/blockSize), uint32(size%blockSize)\n\tif lastBlockSize+chunkHeaderSize >= blockSize {\n\t\tlastBlockID += 1\n\t\tlastBlockSize = 0\n\t}\n\treturn &DataFile{\n\t\tID:            id,\n\t\tReadWriter:    readWriter,\n\t\tlastBlockID:   lastBlockID,\n\t\tlastBlockSize: lastBlockSize,\n",
+  "CD9","open-cursor:datafile.OpenFile","cursor moved past an unpadded block tail at open: logical size != physical size (seeded C11-G)")
 json.dump(M,open('/verif/mutants/c_round3.json','w'),indent=1,ensure_ascii=False)
 print(len(M))
